@@ -3,6 +3,7 @@ import logging
 import actions
 import column
 import schema
+import usertypes
 from objtypes import equal_encoding, strict_equal
 
 log = logging.getLogger(__name__)
@@ -207,6 +208,11 @@ class DocActions(object):
     if new == old:
       log.info("ModifyColumn called which was a noop")
       return
+
+    # Reject an unknown type now: once the old column object is gone, a failure to build the new
+    # one could only be rolled back to an empty column.
+    if not usertypes.is_known_type(new.type):
+      raise ValueError("Unknown column type %r" % (new.type,))
 
     undo_col_info = {k: v for k, v in
                      schema.col_to_dict(old, include_id=False, include_default=True).items()
